@@ -47,6 +47,19 @@ def eval_common(g):
     g.raw('prelude_eval.rs')
     eval_types(g)
     g.type(RULES + 'eval.rs', 'EvaluationResult', derive=None)
+    # comparator layer types (operators.rs) go into `mod operators` of the hand-written comparator prelude
+    import extract as X
+    import os
+    from vrun import VERUS_DIR
+    optypes = []
+    OPS = RULES + 'eval/operators.rs'
+    for t in ('LhsRhsPair', 'QueryIn', 'ListIn', 'Compare', 'ComparisonResult', 'ValueEvalResult', 'EvalResult', 'NotComparable'):
+        log = []
+        orig, new = X.emit_type(g.src(OPS), t, log, derive=None)
+        optypes.append(new)
+        g.listing.append('### type operators::%s (%s)\n%s\n%s\n' % (t, OPS, '\n'.join('  - ' + l for l in log), X.listing(orig, new, t)))
+    pre = open(os.path.join(VERUS_DIR, 'prelude_binop.rs')).read().replace('    // ---- OPERATOR_TYPES ----', '\n'.join(optypes))
+    g.text(pre, 'prelude_binop.rs + operators.rs types')
     g.raw('spec_eval.rs')
     g.trait('EvalContext', [(RULES + 'mod.rs', 'RecordTracer'), (RULES + 'mod.rs', 'EvalContext')], 'trait_EvalContext.spec')
 
@@ -63,7 +76,7 @@ def g_eval(repo):
     for f in ('eval_when_clause', 'eval_rule_clause', 'eval_guard_clause'):
         g.fn(None, E, f, spec='clause_stub.spec', stub=True)
     g.fn(None, E, 'unary_operation', spec='unary_operation.spec', stub=True)
-    g.fn(None, E, 'binary_operation', spec='binary_operation.spec', stub=True)
+    g.fn('U-binop', E, 'binary_operation', spec='binary_operation_unit.spec', props=['C01', 'C02', 'C03', 'C08'])
     g.fn(None, RULES + 'eval_context.rs', 'resolve_function', spec='resolve_function.spec', stub=True)
     g.fn('U-unary-op', RULES + 'values.rs', 'is_unary', impl=r'impl CmpOperator', spec='is_unary.spec', wrap_impl='impl CmpOperator', props=['C01', 'C03'])
     g.fn('U-gac', E, 'eval_guard_access_clause', spec='eval_guard_access_clause.spec', props=['C01', 'C02', 'C03', 'C08'])
